@@ -315,6 +315,11 @@ func checkC18(c *Ctx, n int) {
 	p.OnlyTypes = []string{"str", "bool", "int", "c2", "c2", "Lc2", "Lstr", "Mstr,int", "F-", "Pbool", "c0", "f64"}
 	for i := 0; i < n; i++ {
 		g := &gen{r: c.Rng, p: p}
+		if i%3 != 0 {
+			// mostly valid command-line prefixes: few unknown / malformed words, many command words,
+			// optional subcommands (a plain word is then an argument, not an unknown command)
+			g.p.Unknown, g.p.Weird, g.p.ValueBad, g.p.CmdWord, g.p.SubOpt, g.p.Required = 0.02, 0.02, 0.02, 0.3, 0.5, 0.05
+		}
 		cs := g.genCase()
 		real, _ := BuildReal(cs)
 		if real.dead {
@@ -369,6 +374,7 @@ func checkC18(c *Ctx, n int) {
 					c.Check("hidden-option-not-offered", false, "C18:hidden-offered", in, it, "not offered")
 				}
 			}
+			oracleCompletion(c, cs, cr, args, items)
 		})
 	}
 }
